@@ -6,6 +6,7 @@ import TFV.Generated.Src.check_for_value
 import TFV.Generated.Src.argsort_k
 import TFV.Model.Select
 import TFV.Lemmas.Src.Bsearch
+import TFV.Properties.Select
 
 namespace TFV.SrcTie
 open TFV.Generated.Src
@@ -22,5 +23,12 @@ theorem C11_src_check_for_value (v : Int) (arr : List Int) (e : Nat) (he : e ≤
 theorem C11_src_argsort_k (vals : List Int) (k : Nat) (hk : k ≤ vals.length) :
     argsort_k vals (k : Int) = some ((Select.argsortK vals k).map Int.ofNat) :=
   src_argsort_k vals k hk
+
+/-- C11 on the translated `binary_search_interval`: on a nondecreasing array that reaches `v` it
+    returns the first index whose cumulative value is ≥ v, reading only inside the array -/
+theorem C11_src_binary_search_first_ge (v : Int) (cum : List Int) (hm : Select.Mono cum) (hne : cum ≠ [])
+    (hv : v ≤ cum.getLastD 0) :
+    binary_search_interval v cum = some (Select.firstGe v cum : Int) := by
+  rw [C11_src_binary_search_interval v cum hne, Select.C11_bsearch_eq_firstGe v cum hm hne hv]
 
 end TFV.SrcTie
